@@ -175,7 +175,11 @@ def check_gaussian(R, monitor, g, opts, where):
         asym = float(np.abs(cov - np.swapaxes(cov, -1, -2)).max())
         scale = float(np.abs(cov).max()) or 1.0
         R.check(monitor, asym <= 1e-10 * scale, 'domain/gaussian/asymmetric', f'{where}: covariance asymmetry {asym:.3e}', prop='C09')
-        ev = np.linalg.eigvalsh((cov + np.swapaxes(cov, -1, -2)) / 2)
+        # (scale-free: a component that has collapsed onto one observation has a covariance of subnormal magnitude, whose
+        # eigenvalues underflow to zero although the matrix is positive definite)
+        sc = np.abs(cov).max(axis=(-2, -1), keepdims=True)
+        with np.errstate(all='ignore'):
+            ev = np.linalg.eigvalsh(np.where(sc > 0, (cov + np.swapaxes(cov, -1, -2)) / 2 / np.where(sc > 0, sc, 1.0), 0.0))
         R.check(monitor, bool((ev.min(axis=-1) > -64 * EPS * np.abs(ev).max(axis=-1)).all() and (ev.max(axis=-1) > 0).all()),
                 'domain/gaussian/not-pd', f'{where}: covariance eigenvalue {ev.min():.3e}', prop='C09')
     else:
